@@ -8,7 +8,7 @@ CLAIM = dict(
     text='Krylov.tla models the success/budget protocol shared by solve_cg, solve_bicg (itol 1 and 2), solve_bicgstab and solve_qmr (Start, AcceptInitial, Iterate, HalfStepExit, Breakdown, ReturnOk, Exhaust) with the residual classes and breakdowns chosen by the environment. '
          'TLC checks exhaustively for the four kinds, budgets 0..3 (quick) / 0..5 (thorough) and every environment: OkMeansPassed (Ok(k) only when the residual test passed at iteration k, k <= budget), BudgetZeroUntouched, the variant (strictly decreasing measure, it grows by at most one per step), termination under weak fairness, and PrefixClosed (the run with any smaller budget fed the same environment is a prefix: Err after j iterations for j < k, the identical Ok(k) for j >= k). '
          'Against the real code TLC validates every recorded call: systems of order 1..60 (SPD, strictly dominant nonsymmetric, symmetric indefinite, general nonsymmetric, ill-conditioned up to 1e12 incl. Hilbert, exactly singular, zero right-hand side; every pattern and triplet order), guesses zero/random/exact, tolerances 1e-12..1e-2, budgets {0,1,2,n,2n,1000}, plus all TLC-enumerated 2x2 integer SPD systems with budgets 0..3. '
-         'plus structured small-integer systems on which the recurrences break down EXACTLY (triangular, block triangular, rows/columns holding only the diagonal, diag(+1,-1,..), skew, permutations, nilpotent shifts, singular blocks; right-hand sides e_k for every k, e_i+e_j, ones, A e_k; all solvers, budgets >= 2), systems with known eigenvectors for one-step collapses (diagonal, Householder-symmetric, nonsymmetric 2x2 / triangular / block-diagonal; b = v_i + d v_j, v_i + v_j + d v_k and the part of v_j orthogonal to v_i plus d v_i, d = 1e-4..1e-13, tol 1e-12..1e-6, zero and small guesses), independent decimal scales of the three arguments (x0, A, b each from 1e-170..1e150 with A*x0, b and the solution kept in the normal range; the reference norms and residuals are evaluated with scaling, never by squaring raw entries), ties with the user-supplied tolerance (dyadic constructions blockdiag(1-e, 1+e)*2^sa, b = +-2^sb, 2..8 unknowns, where the first residual relative to |b| equals e = 2^-k bit for bit, tol = e and its two neighbouring f64; feedback ties: tol := the Err(resid_k) value returned with budget k and a tiny tolerance, and for BiCGSTAB the half-step residuals recomputed through the public API in the operation order of the solver, each with both neighbours and budgets k-1, k, k+1, 1000), and sequences on ONE Sparse object (products/solves, then insert overwriting an existing diagonal/off-diagonal entry, insert of a new entry, scale, transpose(), each followed by a solve with every solver, judged against the independently tracked CURRENT dense matrix). '
+         'plus structured small-integer systems on which the recurrences break down EXACTLY (triangular, block triangular, rows/columns holding only the diagonal, diag(+1,-1,..), skew, permutations, nilpotent shifts, singular blocks; right-hand sides e_k for every k, e_i+e_j, ones, A e_k; all solvers, budgets >= 2), systems with known eigenvectors for one-step collapses (diagonal, Householder-symmetric, nonsymmetric 2x2 / triangular / block-diagonal; b = v_i + d v_j, v_i + v_j + d v_k and the part of v_j orthogonal to v_i plus d v_i, d = 1e-4..1e-13, tol 1e-12..1e-6, zero and small guesses), independent decimal scales of the three arguments (x0, A, b each from 1e-170..1e150 with A*x0, b and the solution kept in the normal range; the reference norms and residuals are evaluated with scaling, never by squaring raw entries), ties with the user-supplied tolerance (dyadic constructions blockdiag(1-e, 1+e)*2^sa, b = +-2^sb, 2..8 unknowns, where the first residual relative to |b| equals e = 2^-k bit for bit, tol = e and its two neighbouring f64; feedback ties: tol := the Err(resid_k) value returned with budget k and a tiny tolerance, and for BiCGSTAB the half-step residuals recomputed through the public API in the operation order of the solver, each with both neighbours and budgets k-1, k, k+1, 1000), and sequences on ONE Sparse object (products/solves, then insert overwriting an existing diagonal/off-diagonal entry, insert of a new entry, scale, transpose(), direct writes to the public fields val / row_index / col_start, also two alternating objects and extreme legal budgets up to usize::MAX, each followed by a solve with every solver, judged against the independently tracked CURRENT dense matrix). '
          'Guards (in Trace_Krylov.tla): Ok(k) => k <= budget, x finite, res_units <= 1 (QMR: calibrated 100, on the structured family 2000, because the residual-gap theorem does not cover its coupled recurrences); budget 0 => x bit-identical; the re-runs with budgets 1..k are Err for j < k and Ok(k) with the same x for j = k.',
     note='Decided exactly by TLC: the protocol properties on the model. Resting on harness measurements: the true residual ||b - A x||_2 (double-double, from a dense copy assembled from the triplets, not from the Sparse object), '
          'the drift unit 8*(p+10)*max(k,1)*eps*(||A||_F*max_j||x_j|| + ||b||)/||b|| with max_j over the iterates obtained hook-free by re-running with budgets 1..k, bit patterns / a 64-bit FNV fingerprint of x. '
